@@ -1381,6 +1381,11 @@ pub fn gen_plan_twin(seed: u64, thorough: bool, pool: &[Pos], mates: &[(Pos, u32
     let mut rng = Rng::new(seed ^ 0x7717);
     for c in p.cycles.iter_mut() {
         c.go.searchmoves_picks.clear();
+        // following the engine's own line would let the two replicas part ways on equal-valued
+        // moves, which the property allows; re-search the same position instead
+        if matches!(c.pos, PosSpec::Follow { .. }) {
+            c.pos = PosSpec::Keep;
+        }
         // some cycles with longer, repetition-laden histories (symmetry must hold there too)
         if rng.chance(1, 4) {
             let g = random_game(&mut rng, pool, 16, true);
@@ -1486,6 +1491,14 @@ fn run_twin(plan: &EnginePlan, res: &mut RunResult) -> Result<(u64, u64, u64), V
     }
     for (a, b) in sums[0].iter().zip(sums[1].iter()) {
         res.bump("twin_comparisons");
+        // the full-move number legitimately differs by one along mirrored games (it advances after Black's move)
+        let flipped_ok = match (Pos::from_fen(&a.0), Pos::from_fen(&b.0)) {
+            (Ok(x), Ok(y)) => x.flip().key() == y.key() && x.half == y.half,
+            _ => false,
+        };
+        if !flipped_ok {
+            return Err(viol("HARNESS", "twin_positions_not_mirrored", format!("{} vs {}", a.0, b.0)));
+        }
         if a.1.starts_with("mate") {
             res.bump("probe.twin_mate_score");
         }
